@@ -924,3 +924,338 @@ Proof.
   - apply in_or_app. right. now left.
   - intros n p. apply next_token_at_end. lia.
 Qed.
+(* ================================================================ 7. per-token theorems *)
+(* dismiss a scan_case constructor whose token type cannot be the one at hand; Heq : <type of the case> = <type> *)
+Ltac absurd_ty Heq :=
+  first
+  [ vm_compute in Heq; discriminate Heq
+  | match goal with Hop : is_op_type _ = true |- _ => rewrite Heq in Hop; vm_compute in Hop; discriminate Hop end
+  | match goal with Hn : _ = token_INT \/ _ = token_FLOAT |- _ =>
+      destruct Hn as [Hn|Hn]; rewrite Hn in Heq; vm_compute in Heq; discriminate Heq end
+  | match type of Heq with lookup_ident ?w = _ =>
+      let Hl := fresh in destruct (lookup_ident_type w) as [Hl|Hl]; rewrite Heq in Hl; vm_compute in Hl; discriminate Hl end
+  | match type of Heq with end_type ?lm = _ => destruct lm; vm_compute in Heq; discriminate Heq end ].
+
+(* token types whose literal is the text of the token: everything except strings, comments, ILLEGAL and
+   the end markers, i.e. identifiers, keywords, numbers and operators *)
+Definition text_type (ty : Z) : bool :=
+  negb (Z.eqb ty token_ILLEGAL || Z.eqb ty token_EOL || Z.eqb ty token_EOF || Z.eqb ty token_STRING
+        || Z.eqb ty token_LINECOMMENT || Z.eqb ty token_BLOCKCOMMENT).
+
+Lemma scan_case_text lm r ty lit k : scan_case lm r ty lit k -> text_type ty = true -> lit = firstn k r.
+Proof.
+  intros H T. destruct H; try reflexivity; try (subst r; reflexivity);
+    try (vm_compute in T; discriminate T).
+Qed.
+
+Lemma lex_all_literal_is_span lm s t :
+  In t (lex_all lm s) -> text_type (lt_type t) = true ->
+  lt_lit t = span s t /\ (lt_start t < lt_end t <= length s)%nat.
+Proof.
+  intros Hin T. pose proof (lex_all_tok_at lm s t Hin) as Hat. split.
+  - destruct Hat as [_ C]. exact (scan_case_text _ _ _ _ _ C T).
+  - pose proof (tok_at_facts lm s t Hat) as [_ [H1 H2]].
+    assert (E : is_end t = false).
+    { unfold is_end. unfold text_type in T. apply negb_true_iff in T.
+      repeat (apply orb_false_elim in T; destruct T as [T ?]).
+      apply orb_false_intro; assumption. }
+    rewrite E in H2. lia.
+Qed.
+
+Definition string_at (r : list N) (lit : list N) (k : nat) : Prop :=
+  exists q raw rest,
+    (q = 34 \/ q = 96) /\ r = q :: raw ++ q :: rest /\ k = (length raw + 2)%nat /\ str_body (q =? 34) q raw lit.
+
+Lemma scan_case_string lm r lit k : scan_case lm r token_STRING lit k -> string_at r lit k.
+Proof.
+  intros H. remember token_STRING as ty eqn:Heq.
+  destruct H; try (exfalso; absurd_ty Heq).
+  do 3 eexists. repeat split; eauto.
+Qed.
+
+Definition line_comment_at (r : list N) (lit : list N) (k : nat) : Prop :=
+  exists body rest,
+    r = 47 :: 47 :: body ++ rest /\ Forall (fun c => c <> 10) body /\
+    (rest = [] \/ hd0 rest = 10 /\ rest <> []) /\
+    k = (2 + length body)%nat /\ lit = trim_space (firstn k r).
+
+Definition block_comment_at (r : list N) (lit : list N) (k : nat) : Prop :=
+  lit = firstn k r /\
+  ((exists pre rest, r = 47 :: 42 :: pre ++ 42 :: 47 :: rest /\ has_close (pre ++ [42]) = false /\
+                     k = (4 + length pre)%nat) \/
+   (exists body, r = 47 :: 42 :: body /\ has_close body = false /\ k = length r)).
+
+Lemma scan_case_line_comment lm r lit k : scan_case lm r token_LINECOMMENT lit k -> line_comment_at r lit k.
+Proof.
+  intros H. remember token_LINECOMMENT as ty eqn:Heq.
+  destruct H; try (exfalso; absurd_ty Heq).
+  exists body, rest. repeat split; auto. subst r.
+  change (47 :: 47 :: body ++ rest) with ((47 :: 47 :: body) ++ rest).
+  change (2 + length body)%nat with (length (47 :: 47 :: body)). now rewrite firstn_exact.
+Qed.
+
+Lemma scan_case_block_comment lm r lit k : scan_case lm r token_BLOCKCOMMENT lit k -> block_comment_at r lit k.
+Proof.
+  intros H. remember token_BLOCKCOMMENT as ty eqn:Heq.
+  destruct H; try (exfalso; absurd_ty Heq).
+  - split.
+    + subst r. replace (47 :: 42 :: pre ++ 42 :: 47 :: rest) with ((47 :: 42 :: pre ++ [42; 47]) ++ rest)
+        by (cbn [app]; now rewrite <- app_assoc).
+      replace (4 + length pre)%nat with (length (47 :: 42 :: pre ++ [42; 47]))
+        by (cbn [length]; rewrite app_length; cbn [length]; lia).
+      now rewrite firstn_exact.
+    + left. exists pre, rest. auto.
+  - split; [now rewrite firstn_all|]. right. exists body. auto.
+Qed.
+
+Definition illegal_at (lm : bool) (r : list N) (lit : list N) (k : nat) : Prop :=
+  (exists ch r1, r = ch :: r1 /\ k = 1%nat /\ lit = encode_rune ch) \/
+  (lm = false /\ exists q r1, r = q :: r1 /\ (q = 34 \/ q = 96) /\ unterminated q r1 /\ k = length r /\ lit = r).
+
+Lemma scan_case_illegal lm r lit k : scan_case lm r token_ILLEGAL lit k -> illegal_at lm r lit k.
+Proof.
+  intros H. remember token_ILLEGAL as ty eqn:Heq.
+  destruct H; try (exfalso; absurd_ty Heq).
+  - right. split; [assumption|]. exists q, r1. auto.
+  - left. exists ch, r1. auto.
+Qed.
+
+(* ---- keywords *)
+Lemma bytes_eqb_eq a b : bytes_eqb a b = true <-> a = b.
+Proof.
+  revert b. induction a as [|x a IH]; intros [|y b]; cbn [bytes_eqb]; split; intros H; try discriminate; auto.
+  - apply andb_prop in H. destruct H as [H1 H2]. apply N.eqb_eq in H1. apply IH in H2. now subst.
+  - inversion H; subst. rewrite N.eqb_refl. cbn. now apply IH.
+Qed.
+
+Lemma lookup_keyword_in_none tbl w : lookup_keyword_in tbl w = None -> forall ty, ~ In (w, ty) tbl.
+Proof.
+  induction tbl as [|[k t] tbl IH]; cbn [lookup_keyword_in]; intros H ty Hin; [exact Hin|].
+  destruct (bytes_eqb k w) eqn:E; [discriminate|]. destruct Hin as [Hin|Hin].
+  - inversion Hin; subst. assert (bytes_eqb w w = true) by now apply bytes_eqb_eq. congruence.
+  - exact (IH H ty Hin).
+Qed.
+
+Lemma scan_case_ident lm r lit k :
+  scan_case lm r token_IDENT lit k -> forall ty, ~ In (lit, ty) keyword_tokens.
+Proof.
+  intros H. remember token_IDENT as ty eqn:Heq.
+  destruct H; try (exfalso; absurd_ty Heq).
+  apply lookup_keyword_in_none. unfold lookup_ident, lookup_keyword in Heq.
+  destruct (lookup_keyword_in keyword_tokens (firstn k r)) as [t|] eqn:E; [|reflexivity].
+  exfalso. apply lookup_keyword_in_spec in E. destruct E as [kw [Hin _]].
+  pose proof keyword_types_ok as K. rewrite forallb_forall in K. specialize (K _ Hin). cbn [snd] in K.
+  rewrite Heq in K. vm_compute in K. discriminate K.
+Qed.
+
+(* no abnormal outcome: never a nil token, a Go panic or an exhausted fuel *)
+Lemma lex_all_normal lm s t : In t (lex_all lm s) -> (0 <= lt_type t)%Z.
+Proof. intros H. apply (tok_at_facts lm s t). now apply lex_all_tok_at. Qed.
+
+(* ================================================================ 8. interning *)
+Lemma tkey_eqb_eq a b : tkey_eqb a b = true <-> a = b.
+Proof.
+  destruct a as [t1 l1], b as [t2 l2]. unfold tkey_eqb. cbn [fst snd]. split; intros H.
+  - apply andb_prop in H. destruct H as [H1 H2]. apply Z.eqb_eq in H1. apply bytes_eqb_eq in H2. now subst.
+  - inversion H; subst. rewrite Z.eqb_refl. cbn. now apply bytes_eqb_eq.
+Qed.
+
+(* well-formed table: object numbers below i_next, one key per object number *)
+Definition i_wf (st : istate) : Prop :=
+  (forall k id, i_lookup (i_tbl st) k = Some id -> (id < i_next st)%nat) /\
+  (forall k k' id, i_lookup (i_tbl st) k = Some id -> i_lookup (i_tbl st) k' = Some id -> k = k').
+
+Lemma i_lookup_cons k0 id0 tbl k :
+  i_lookup ((k0, id0) :: tbl) k = if tkey_eqb k0 k then Some id0 else i_lookup tbl k.
+Proof. reflexivity. Qed.
+
+Lemma intern_spec st k :
+  i_wf st ->
+  let '(id, st') := intern st k in
+  i_wf st' /\ i_lookup (i_tbl st') k = Some id /\
+  (forall k' id', i_lookup (i_tbl st) k' = Some id' -> i_lookup (i_tbl st') k' = Some id').
+Proof.
+  intros [W1 W2]. unfold intern. destruct (i_lookup (i_tbl st) k) as [id|] eqn:E.
+  - split; [split; assumption|]. split; [exact E|auto].
+  - unfold i_wf. cbn [i_tbl i_next]. split; [split|split].
+    + intros k' id'. rewrite i_lookup_cons. destruct (tkey_eqb k k') eqn:Ek.
+      * intros H. inversion H. lia.
+      * intros H. apply W1 in H. lia.
+    + intros k1 k2 id'. rewrite !i_lookup_cons.
+      destruct (tkey_eqb k k1) eqn:E1, (tkey_eqb k k2) eqn:E2.
+      * apply tkey_eqb_eq in E1. apply tkey_eqb_eq in E2. congruence.
+      * intros H1 H2. inversion H1; subst. apply W1 in H2. lia.
+      * intros H1 H2. inversion H2; subst. apply W1 in H1. lia.
+      * apply W2.
+    + rewrite i_lookup_cons. assert (tkey_eqb k k = true) by now apply tkey_eqb_eq. now rewrite H.
+    + intros k' id' H. rewrite i_lookup_cons. destruct (tkey_eqb k k') eqn:Ek; [|exact H].
+      apply tkey_eqb_eq in Ek. subst. congruence.
+Qed.
+
+Lemma intern_all_spec h : forall st,
+  i_wf st ->
+  let '(ids, st') := intern_all st h in
+  i_wf st' /\
+  (forall k' id', i_lookup (i_tbl st) k' = Some id' -> i_lookup (i_tbl st') k' = Some id') /\
+  (forall j k id, nth_error h j = Some k -> nth_error ids j = Some id -> i_lookup (i_tbl st') k = Some id) /\
+  length ids = length h.
+Proof.
+  induction h as [|k h IH]; intros st W; cbn [intern_all].
+  - split; [exact W|]. split; [auto|]. split; [intros [|j]; discriminate|reflexivity].
+  - pose proof (intern_spec st k W) as I. destruct (intern st k) as [id st1]. destruct I as [W1 [L1 M1]].
+    specialize (IH st1 W1). destruct (intern_all st1 h) as [ids st2]. destruct IH as [W2 [M2 [P2 Len]]].
+    split; [exact W2|]. split; [auto|]. split; [|cbn [length]; lia].
+    intros [|j] k' id' Hk Hid; cbn [nth_error] in *.
+    + inversion Hk; inversion Hid; subst. auto.
+    + eauto.
+Qed.
+
+Lemma i_empty_wf : i_wf i_empty.
+Proof. split; cbn; intros; discriminate. Qed.
+
+Lemma i_init_wf : i_wf i_init.
+Proof.
+  unfold i_init. match goal with |- i_wf (snd (intern_all i_empty ?h)) => pose proof (intern_all_spec h i_empty i_empty_wf) as H;
+    destruct (intern_all i_empty h) as [ids st] end. exact (proj1 H).
+Qed.
+
+(* after token.Init and any history of Intern calls: two calls return the same object iff their
+   (type, literal) are equal *)
+Lemma intern_injective_functional st h :
+  i_wf st ->
+  let ids := fst (intern_all st h) in
+  forall a b ka kb ia ib,
+    nth_error h a = Some ka -> nth_error h b = Some kb ->
+    nth_error ids a = Some ia -> nth_error ids b = Some ib ->
+    (ia = ib <-> ka = kb).
+Proof.
+  intros W. pose proof (intern_all_spec h st W) as H. destruct (intern_all st h) as [ids st'].
+  destruct H as [[W1 W2] [_ [P _]]]. cbn [fst]. intros a b ka kb ia ib Ha Hb Hia Hib.
+  pose proof (P _ _ _ Ha Hia) as La. pose proof (P _ _ _ Hb Hib) as Lb. split.
+  - intros ->. eapply W2; eauto.
+  - intros ->. congruence.
+Qed.
+(* ================================================================ 9. the statements used by props/C16.v *)
+Lemma strip_prefix_spec p : forall l rest, strip_prefix p l = Some rest -> l = p ++ rest.
+Proof.
+  induction p as [|x p IH]; intros l rest; cbn [strip_prefix app].
+  - intros H. now inversion H.
+  - destruct l as [|y l]; [discriminate|]. destruct (N.eqb_spec x y); [|discriminate].
+    intros H. subst. f_equal. now apply IH.
+Qed.
+
+Lemma strip_any_spec ps l rest : strip_any ps l = Some rest -> exists p, l = p ++ rest.
+Proof.
+  induction ps as [|p ps IH]; cbn [strip_any]; [discriminate|].
+  destruct (strip_prefix p l) as [r|] eqn:E.
+  - intros H. inversion H; subst. exists p. now apply strip_prefix_spec.
+  - exact IH.
+Qed.
+
+Lemma trim_front_suffix seqs : forall fuel l, exists a, l = a ++ trim_front seqs fuel l.
+Proof.
+  induction fuel as [|f IH]; intros l; cbn [trim_front]; [now exists []|].
+  destruct l as [|c l]; [now exists []|].
+  destruct (ascii_space c).
+  - destruct (IH l) as [a Ha]. exists (c :: a). cbn [app]. now f_equal.
+  - destruct (strip_any seqs (c :: l)) as [rest|] eqn:E; [|now exists []].
+    destruct (strip_any_spec _ _ _ E) as [p Hp]. destruct (IH rest) as [a Ha].
+    exists (p ++ a). rewrite <- app_assoc, <- Ha. exact Hp.
+Qed.
+
+(* the literal of a line comment is a prefix of its text (what TrimSpace removes is at the end) *)
+Lemma trim_space_comment_prefix l' : exists tail, 47 :: l' = trim_space (47 :: l') ++ tail.
+Proof.
+  unfold trim_space.
+  assert (E : trim_front unicode_spaces (length (47 :: l')) (47 :: l') = 47 :: l') by reflexivity.
+  rewrite E.
+  destruct (trim_front_suffix (map (@rev N) unicode_spaces) (length (47 :: l')) (rev (47 :: l'))) as [a Ha].
+  exists (rev a). rewrite <- rev_app_distr, <- Ha. now rewrite rev_involutive.
+Qed.
+
+Lemma span_eq s t k : (lt_end t - lt_start t)%nat = k -> span s t = firstn k (skipn (lt_start t) s).
+Proof. intros <-. reflexivity. Qed.
+
+Lemma lex_all_string lm s t :
+  In t (lex_all lm s) -> lt_type t = token_STRING ->
+  exists q raw rest,
+    (q = 34 \/ q = 96) /\ skipn (lt_start t) s = q :: raw ++ q :: rest /\
+    lt_end t = (lt_start t + length raw + 2)%nat /\ str_body (q =? 34) q raw (lt_lit t).
+Proof.
+  intros Hin Ht. destruct (lex_all_tok_at lm s t Hin) as [Hle C]. rewrite Ht in C.
+  destruct (scan_case_string _ _ _ _ C) as [q [raw [rest [Hq [Hr [Hk Hb]]]]]].
+  exists q, raw, rest. repeat split; auto. lia.
+Qed.
+
+Lemma lex_all_line_comment lm s t :
+  In t (lex_all lm s) -> lt_type t = token_LINECOMMENT ->
+  exists body rest,
+    skipn (lt_start t) s = 47 :: 47 :: body ++ rest /\ Forall (fun c => c <> 10) body /\
+    (rest = [] \/ hd0 rest = 10 /\ rest <> []) /\
+    lt_end t = (lt_start t + 2 + length body)%nat /\
+    lt_lit t = trim_space (span s t) /\ exists tail, span s t = lt_lit t ++ tail.
+Proof.
+  intros Hin Ht. destruct (lex_all_tok_at lm s t Hin) as [Hle C]. rewrite Ht in C.
+  destruct (scan_case_line_comment _ _ _ _ C) as [body [rest [Hr [Hb [Hrest [Hk Hl]]]]]].
+  exists body, rest. rewrite (span_eq s t _ eq_refl). repeat split; auto; [lia|].
+  rewrite Hl. rewrite Hr, Hk. change (47 :: 47 :: body ++ rest) with ((47 :: 47 :: body) ++ rest).
+  change (2 + length body)%nat with (length (47 :: 47 :: body)). rewrite firstn_exact.
+  destruct (trim_space_comment_prefix (47 :: body)) as [tail Htail]. now exists tail.
+Qed.
+
+Lemma lex_all_block_comment lm s t :
+  In t (lex_all lm s) -> lt_type t = token_BLOCKCOMMENT ->
+  lt_lit t = span s t /\
+  ((exists pre rest, skipn (lt_start t) s = 47 :: 42 :: pre ++ 42 :: 47 :: rest /\
+                     has_close (pre ++ [42]) = false /\ lt_end t = (lt_start t + 4 + length pre)%nat) \/
+   (exists body, skipn (lt_start t) s = 47 :: 42 :: body /\ has_close body = false /\ lt_end t = length s)).
+Proof.
+  intros Hin Ht. destruct (lex_all_tok_at lm s t Hin) as [Hle C]. rewrite Ht in C.
+  destruct (scan_case_block_comment _ _ _ _ C) as [Hl [[pre [rest [Hr [Hc Hk]]]]|[body [Hr [Hc Hk]]]]].
+  - split; [exact Hl|]. left. exists pre, rest. repeat split; auto. lia.
+  - split; [exact Hl|]. right. exists body. repeat split; auto.
+    rewrite skipn_length in Hk. assert (length (skipn (lt_start t) s) <> 0%nat) by (rewrite Hr; discriminate).
+    rewrite skipn_length in H. lia.
+Qed.
+
+Lemma lex_all_illegal lm s t :
+  In t (lex_all lm s) -> lt_type t = token_ILLEGAL ->
+  (exists ch, nth_error s (lt_start t) = Some ch /\ lt_end t = S (lt_start t) /\ lt_lit t = encode_rune ch) \/
+  (lm = false /\ exists q r1, skipn (lt_start t) s = q :: r1 /\ (q = 34 \/ q = 96) /\ unterminated q r1 /\
+                              lt_end t = length s /\ lt_lit t = skipn (lt_start t) s).
+Proof.
+  intros Hin Ht. destruct (lex_all_tok_at lm s t Hin) as [Hle C]. rewrite Ht in C.
+  destruct (scan_case_illegal _ _ _ _ C) as [[ch [r1 [Hr [Hk Hl]]]]|[Hlm [q [r1 [Hr [Hq [Hu [Hk Hl]]]]]]]].
+  - left. exists ch. repeat split; auto; [|lia].
+    replace (lt_start t) with (lt_start t + 0)%nat by lia. rewrite <- nth_error_skipn', Hr. reflexivity.
+  - right. split; [exact Hlm|]. exists q, r1. repeat split; auto.
+    rewrite skipn_length in Hk. assert (length (skipn (lt_start t) s) <> 0%nat) by (rewrite Hr; discriminate).
+    rewrite skipn_length in H. lia.
+Qed.
+
+Lemma lex_all_keywords_not_idents lm s t :
+  In t (lex_all lm s) -> lt_type t = token_IDENT -> forall ty, ~ In (lt_lit t, ty) keyword_tokens.
+Proof.
+  intros Hin Ht. destruct (lex_all_tok_at lm s t Hin) as [Hle C]. rewrite Ht in C.
+  exact (scan_case_ident _ _ _ _ C).
+Qed.
+
+Lemma intern_after_init h :
+  let ids := fst (intern_all i_init h) in
+  forall a b ka kb ia ib,
+    nth_error h a = Some ka -> nth_error h b = Some kb ->
+    nth_error ids a = Some ia -> nth_error ids b = Some ib ->
+    (ia = ib <-> ka = kb).
+Proof. exact (intern_injective_functional i_init h i_init_wf). Qed.
+(* file mode: the end marker stands at the end of the input, so every non-whitespace byte is in a token *)
+Lemma lex_all_file_mode_cover (s : list N) (j : nat) (c : N) :
+  nth_error s j = Some c -> isWhiteSpace c = false ->
+  exists t, In t (lex_all false s) /\ is_end t = false /\ (lt_start t <= j < lt_end t)%nat.
+Proof.
+  intros Hj Hw. destruct (lex_all_tiling false s) as [body [e [E [Hb [_ [_ [_ [_ [_ [Hcov [Hend _]]]]]]]]]]].
+  assert (Hlt : (j < length s)%nat) by (apply nth_error_Some; congruence).
+  destruct Hend as [Hend|[Hend _]]; [|discriminate].
+  destruct (Hcov j c Hj Hw) as [t [Hin Ht]]; [lia|].
+  exists t. rewrite E. split; [apply in_or_app; now left|]. split; [|exact Ht].
+  rewrite Forall_forall in Hb. now destruct (Hb t Hin).
+Qed.
